@@ -44,7 +44,7 @@ def meta_case(draw):
     many = draw(st.sampled_from([False, False, True]))  # two-digit patch ids (string vs numeric order)
     scene = draw(gen.scene_case(theta, edges, 1, min_patches=10 if many else 1, max_patches=14 if many else 6, max_per_patch=3 if many else 6))
     K = len(scene["centers"])
-    mode = draw(st.sampled_from(["centers", "centers", "ids", "num"]))
+    mode = draw(st.sampled_from(["centers", "centers", "ids", "num", "catalog"]))  # catalog: patch_centers=<another Catalog>
     perm = draw(st.permutations(list(range(K))))
     case = {"scene": scene, "mode": mode, "perm": list(perm), "empty_centre_at": None}
     if mode == "centers" and draw(st.sampled_from([False, False, True])):
@@ -80,7 +80,15 @@ def run_meta(case):
         ck.nontrivial = True
     with Scratch() as tmp:
         try:
-            if case["mode"] == "centers":
+            if case["mode"] == "catalog":
+                # centres taken from another catalog (created from the given centres with other objects)
+                other = {"ra": [float(c[0]) for c in given], "dec": [float(c[1]) for c in given], "w": None, "z": None}
+                first = pl.make_catalog(tmp / "first", other, given)
+                import pandas as pd
+
+                df = pd.DataFrame({"ra": cat["ra"], "dec": cat["dec"], **({"w": cat["w"]} if cat["w"] is not None else {})})
+                catalog = Catalog.from_dataframe(tmp / "c", df, ra_name="ra", dec_name="dec", weight_name="w" if cat["w"] is not None else None, patch_centers=first, degrees=False, max_workers=1)
+            elif case["mode"] == "centers":
                 catalog = pl.make_catalog(tmp / "c", cat, given)
             elif case["mode"] == "ids":
                 catalog = pl.make_catalog(tmp / "c", cat, patch_ids=s.patch)
@@ -118,7 +126,7 @@ def run_meta(case):
             ck.expect(len(r) == 0 or rad <= d.max() + tol, "meta:radius-too-large", lambda: f"patch {pid}: radius {rad} vs max distance {d.max()}")
             ck.expect(np.array_equal(got_centers[i], c) and radii[i] == rad, "meta:get_centers-order")
         # ---- patch i belongs to centre i
-        if case["mode"] == "centers":
+        if case["mode"] in ("centers", "catalog"):
             N = len(given)
             if keys != list(range(N)):
                 ck.fail("centers:patches-not-0..N-1", f"keys {keys} for {N} given centres (empty centre at {case['empty_centre_at']})")
@@ -130,14 +138,14 @@ def run_meta(case):
                     if not np.array_equal(got_centers[i], given[pid]):
                         ck.fail("centers:patch-id-not-aligned-with-centre", f"patch {pid} reports centre {got_centers[i].tolist()} but centre {pid} is {given[pid].tolist()}")
                         break
-        if case["mode"] in ("centers", "num") and len(got_centers) == len(keys) and np.all(np.isfinite(got_centers)):
+        if case["mode"] in ("centers", "num", "catalog") and len(got_centers) == len(keys) and np.all(np.isfinite(got_centers)):
             # re-assigning all records to the reported centres reproduces the stored partition
             want, margin = pl.nearest_centre(pl.to_xyz(rec[:, 0], rec[:, 1]), pl.to_xyz(got_centers[:, 0], got_centers[:, 1]))
             if margin.min() >= 1e-12:
                 for i, pid in enumerate(keys):
                     exp = rec[want == i]
                     if sources.multiset(stored[pid][:, :2]) != sources.multiset(exp):
-                        ck.fail(f"partition:not-reproduced-by-reported-centres:{case['mode']}", f"patch {pid}: {len(stored[pid])} stored, {len(exp)} nearest to its reported centre")
+                        ck.fail(f"partition:not-reproduced-by-reported-centres:{'centers' if case['mode'] == 'catalog' else case['mode']}", f"patch {pid}: {len(stored[pid])} stored, {len(exp)} nearest to its reported centre")
                         break
         ck.expect(sum(len(v) for v in stored.values()) == n, "records:count")
     return ck.results()
